@@ -119,6 +119,19 @@ type c11State struct {
 	depth    int
 	seqKind  string
 	feeShort bool
+
+	// one Processor per sequence (forks are executed by the same instance)
+	proc       *chain.Processor
+	replayFail bool
+	// the parent before the last verified block, for executing a sibling of that block
+	hasPrev   bool
+	prevView  merkledb.View
+	prevHdr   c11Hdr
+	prevPid   ids.ID
+	prevDepth int
+	sibMode   bool
+	hasSib    bool
+	sibRoot   ids.ID
 }
 
 func c11ParseI(s string) (int64, bool) {
@@ -142,7 +155,7 @@ func (s *c11State) exec(l string) {
 	switch f[0] {
 	case "seq":
 		s.seq(l, f)
-	case "exec":
+	case "exec", "sib":
 		s.execBlock(l, f)
 	default:
 		s.r.Emit(l, "bad-op")
@@ -220,6 +233,21 @@ func (s *c11State) seq(l string, f []string) {
 		return
 	}
 	s.rf, s.live, s.depth, s.seqKind = rf, true, 0, f[2]
+	s.hasPrev, s.hasSib, s.sibMode = false, false, false
+	vw := &validitywindowtest.MockTimeValidityWindow[*chain.Transaction]{
+		OnVerifyExpiryReplayProtection: func(context.Context, validitywindow.ExecutionBlock[*chain.Transaction]) error {
+			if s.replayFail {
+				return errC11Mock
+			}
+			return nil
+		},
+	}
+	metrics, err := chain.NewMetrics(prometheus.NewRegistry())
+	if err != nil {
+		panic(err)
+	}
+	s.proc = chain.NewProcessor(trace.Noop, &logging.NoLog{}, rf, workers.NewSerial(), chaintest.NewDummyTestAuthEngines(),
+		c11MM, c11BH, vw, metrics, chain.NewDefaultConfig())
 	s.feeShort = f[2] == "syn" && f[10] == "s"
 	// the clock is stamped as late as possible and written into the emitted line
 	s.t0 = time.Now().UnixMilli()
@@ -227,7 +255,28 @@ func (s *c11State) seq(l string, f []string) {
 	s.r.Emit(strings.Join(f, " "), "ok")
 }
 
+// execBlock: `exec` runs a block on the current parent and, if it verifies, makes it the new
+// parent; `sib` runs a block on the parent of the current parent (a sibling of the last
+// verified block, i.e. a fork) through the same Processor, does not adopt it, and remembers
+// its post-state root for root kind `s`.
 func (s *c11State) execBlock(l string, f []string) {
+	if f[0] != "sib" {
+		s.execCore(l, f)
+		return
+	}
+	if !s.live || !s.hasPrev {
+		s.r.Emit(l, "bad-op")
+		return
+	}
+	cv, cp, ch, cd := s.view, s.pid, s.hdr, s.depth
+	s.view, s.pid, s.hdr, s.depth = s.prevView, s.prevPid, s.prevHdr, s.prevDepth
+	s.sibMode = true
+	s.execCore(l, f)
+	s.sibMode = false
+	s.view, s.pid, s.hdr, s.depth = cv, cp, ch, cd
+}
+
+func (s *c11State) execCore(l string, f []string) {
 	r := s.r
 	if !s.live || len(f) != 6 || len(f[2]) < 2 {
 		r.Emit(l, "bad-op")
@@ -237,7 +286,7 @@ func (s *c11State) execBlock(l string, f []string) {
 	v, okv := c11ParseI(f[2][1:])
 	txk, rk, rp := f[3], f[4], f[5]
 	if err != nil || !okv || (f[2][0] != 'a' && f[2][0] != 'n') ||
-		!strings.Contains("0visVw", txk) || len(txk) != 1 || (rk != "p" && rk != "r") || (rp != "y" && rp != "n" && rp != "f") {
+		!strings.Contains("0visVw", txk) || len(txk) != 1 || (rk != "p" && rk != "r" && rk != "s") || (rk == "s" && !s.hasSib) || (rp != "y" && rp != "n" && rp != "f") {
 		r.Emit(l, "bad-op")
 		return
 	}
@@ -301,22 +350,15 @@ func (s *c11State) execBlock(l string, f []string) {
 	if rk == "r" {
 		root[5] ^= 0x40
 	}
+	if rk == "s" { // the post-state root of the sibling executed last by `sib`
+		root = s.sibRoot
+	}
 	sb, err := chain.NewStatelessBlock(s.pid, ts, height, txs, root, &block.Context{})
 	if err != nil {
 		panic(err)
 	}
-	vw := &validitywindowtest.MockTimeValidityWindow[*chain.Transaction]{}
-	if rp == "y" || rp == "f" { // "f": the window would fail, but isNormalOp=false skips it
-		vw.OnVerifyExpiryReplayProtection = func(context.Context, validitywindow.ExecutionBlock[*chain.Transaction]) error {
-			return errC11Mock
-		}
-	}
-	metrics, err := chain.NewMetrics(prometheus.NewRegistry())
-	if err != nil {
-		panic(err)
-	}
-	p := chain.NewProcessor(trace.Noop, &logging.NoLog{}, s.rf, workers.NewSerial(), chaintest.NewDummyTestAuthEngines(),
-		c11MM, c11BH, vw, metrics, chain.NewDefaultConfig())
+	s.replayFail = rp == "y" || rp == "f" // "f": the window would fail, but isNormalOp=false skips it
+	p := s.proc
 	eb := chain.NewExecutionBlock(sb)
 
 	type res struct {
@@ -454,6 +496,17 @@ func (s *c11State) execBlock(l string, f []string) {
 	}
 	r.Distinct(fmt.Sprintf("%s d=%d tx=%s gen=%v gaps=%d/%d rel=%c", s.seqKind, min(s.depth, 5), txk, ph.isGenesis, rules.MinBlockGap, rules.MinEmptyBlockGap, f[2][0]))
 
+	if s.sibMode {
+		// a fork: not adopted. Wait for its root (and give the processor's background root
+		// generation time to finish whatever it does with it).
+		if sr, rerr := out.View.GetMerkleRoot(ctx); rerr == nil {
+			s.sibRoot, s.hasSib = sr, true
+		}
+		time.Sleep(30 * time.Millisecond)
+		r.Count("fork:sibling-verified")
+		return
+	}
+	s.hasPrev, s.prevView, s.prevPid, s.prevHdr, s.prevDepth = true, s.view, s.pid, s.hdr, s.depth
 	s.view, s.pid, s.depth = out.View, sb.GetID(), s.depth+1
 	s.hdr = c11Hdr{known: true, height: height, ts: ts}
 }
@@ -516,6 +569,17 @@ func c11Generate(r *verifh.Run) []string {
 		"exec 4 n-17000 0 p n",
 		"exec 5 n-16901 w p n",
 		"exec 5 n-16900 w p f",
+		// a fork executed by ONE processor: A1 and its sibling A2 (other txs, other root) on the
+		// genesis, then children of A1 carrying A2's post-state root (must fail) / A1's (ok)
+		"seq 0 gen 100 750 0 100 750",
+		"exec 1 n-20000 0 p n",
+		"sib 1 n-19000 v p n",
+		"exec 2 n-18000 0 s n",
+		"exec 2 n-18000 v s n",
+		"exec 2 n-18000 0 p n",
+		"sib 2 n-17500 V p n",
+		"exec 3 n-17000 0 s n",
+		"exec 3 n-17000 0 p n",
 		// truncated fee state in the parent: Go panics in ComputeNext
 		"seq 0 syn 100 750 0 100 750 " + be(0) + " " + be(0) + " s",
 		"exec 1 a750 0 p n",
@@ -695,6 +759,15 @@ func c11Generate(r *verifh.Run) []string {
 				rp = "f"
 			}
 			lines = append(lines, fmt.Sprintf("exec %d %s %s %s %s", h, next, tx, rk, rp))
+			if r.RNG.Chance(12) && j > 0 { // a sibling of the block before, then maybe a child with its root
+				stx := []string{"0", "v", "V"}[r.RNG.Intn(3)]
+				sts := cur
+				sts.v++ // never the same content as the block it is a sibling of
+				lines = append(lines, fmt.Sprintf("sib %d %s %s p n", curH, sts, stx))
+				if r.RNG.Chance(70) {
+					lines = append(lines, fmt.Sprintf("exec %d %s %s s %s", h, next, tx, rp))
+				}
+			}
 			// heuristic: assume it verified when it was meant to
 			if valid && h == curH+1 && rk == "p" && rp != "y" && (tx == "0" || tx == "v" || tx == "V" || tx == "w") &&
 				(next.rel != cur.rel || next.v >= cur.v+need) {
